@@ -1,14 +1,11 @@
 """C04 - memory limits hold after every tick and reported usage is the real usage."""
-from ..report import Report
 from .. import simcheck
 
 
 def main(tier, seed):
-    rep = Report("C04", tier, seed)
-    rep.cov["rule"] = simcheck.RULE_F1
-    simcheck.run_f1(rep, "C04", tier)
+    rep = simcheck.sim_main("C04", tier, seed, ["F3", "F2", "F1"])
     return rep.finish()
 
 
 def replay(rec):
-    return simcheck.replay_f1(rec)
+    return simcheck.replay(rec)
